@@ -234,14 +234,29 @@ def r4_pow(rep, ctx):
         if fn is None:
             raise AnalysisError("%s.__pow__ not found" % cname)
         body = [st for st in fn.node.body if not (isinstance(st, ast.Expr) and isinstance(st.value, ast.Constant))]
-        ok = len(body) == 3 and isinstance(body[0], ast.Assign) and ast.unparse(body[0]) == "result = self" and isinstance(body[1], ast.For) and isinstance(body[2], ast.Return) and ast.unparse(body[2]) == "return result"
+        selfn = fn.params[0]
+        expn = fn.params[1] if len(fn.params) > 1 else None
+        # shape: ACC = self; for <unused> in range(<count>): ACC = <product>; return ACC   (whatever ACC is called)
+        ok = len(body) == 3 and isinstance(body[0], ast.Assign) and len(body[0].targets) == 1 and isinstance(body[0].targets[0], ast.Name) and isinstance(body[0].value, ast.Name) and body[0].value.id == selfn \
+            and isinstance(body[1], ast.For) and not body[1].orelse and isinstance(body[2], ast.Return) and isinstance(body[2].value, ast.Name) and body[2].value.id == body[0].targets[0].id
         if not ok:
             raise AnalysisError("%s.__pow__ is not the 'result = self; for _ in range(exponent - 1): result = result * self; return result' idiom: the checker cannot tell whether another algorithm computes the n-fold product" % cname)
+        acc = body[0].targets[0].id
         lp = body[1]
-        rng = ast.unparse(lp.iter).replace(" ", "")
-        step = [ast.unparse(s).replace(" ", "") for s in lp.body]
-        import re
-        if not re.fullmatch(r"range\(exponent([+-]\d+)?\)", rng) or len(step) != 1 or not re.fullmatch(r"result=(result\*self|self\*result|result\*result|self\*self)", step[0]):
-            raise AnalysisError("%s.__pow__ is not the linear 'multiply exponent-1 times' idiom (loop over %s doing %s): the checker cannot tell whether another algorithm computes the n-fold product" % (cname, rng, step))
-        rep.check(rng == "range(exponent-1)", "C04.R4", "%s.__pow__:count" % cname, "the loop runs exponent - 1 times", "the loop runs %s times: a ** n is not the n-fold product" % rng, node=lp, fn=fn)
-        rep.check(step in (["result=result*self"], ["result=self*result"]), "C04.R4", "%s.__pow__:step" % cname, "each step multiplies the running result by self", "each step does %s" % step, node=lp, fn=fn)
+        loopvars = {x.id for x in ast.walk(lp.target) if isinstance(x, ast.Name)}
+        it = lp.iter
+        count = None  # offset k of `range(exponent + k)`
+        if isinstance(it, ast.Call) and isinstance(it.func, ast.Name) and it.func.id == "range" and len(it.args) == 1 and not it.keywords:
+            x = it.args[0]
+            if isinstance(x, ast.Name) and x.id == expn:
+                count = 0
+            elif isinstance(x, ast.BinOp) and isinstance(x.op, (ast.Add, ast.Sub)) and isinstance(x.left, ast.Name) and x.left.id == expn and isinstance(x.right, ast.Constant) and type(x.right.value) is int:
+                count = x.right.value if isinstance(x.op, ast.Add) else -x.right.value
+        step = None  # the two factors of `ACC = a * b`
+        if len(lp.body) == 1 and isinstance(lp.body[0], ast.Assign) and len(lp.body[0].targets) == 1 and isinstance(lp.body[0].targets[0], ast.Name) and lp.body[0].targets[0].id == acc \
+                and isinstance(lp.body[0].value, ast.BinOp) and isinstance(lp.body[0].value.op, ast.Mult) and all(isinstance(z, ast.Name) and z.id in (acc, selfn) for z in (lp.body[0].value.left, lp.body[0].value.right)):
+            step = sorted(("acc" if z.id == acc else "self") for z in (lp.body[0].value.left, lp.body[0].value.right))
+        if count is None or step is None or any(isinstance(z, ast.Name) and z.id in loopvars for z in ast.walk(lp.body[0])):
+            raise AnalysisError("%s.__pow__ is not the linear 'multiply exponent-1 times' idiom (loop over %s doing %s): the checker cannot tell whether another algorithm computes the n-fold product" % (cname, ast.unparse(it), [ast.unparse(z) for z in lp.body]))
+        rep.check(count == -1, "C04.R4", "%s.__pow__:count" % cname, "the loop runs exponent - 1 times", "the loop runs %s times: a ** n is not the n-fold product" % ast.unparse(it), node=lp, fn=fn)
+        rep.check(step == ["acc", "self"], "C04.R4", "%s.__pow__:step" % cname, "each step multiplies the running result by self", "each step does %s" % ast.unparse(lp.body[0]), node=lp, fn=fn)
